@@ -31,6 +31,7 @@ type c17Case struct {
 func genC17(t *rapid.T) c17Case {
 	c := c17Case{}
 	c.Shape = gen.DrawShape(t, gen.ShapeOpts{NoJS: true})
+	c.Shape.Grouped = false // a wrapper element per record is not "a fixed set of ancestors": out of C17's domain
 	if c.Shape.IntCol == 0 && rapid.Bool().Draw(t, "dropIntCol") {
 		c.Shape.IntCol = -1
 	}
